@@ -364,8 +364,9 @@ func parseAux(aux []byte) ([]sam.Aux, error) {
 				if i+8 > len(aux) {
 					return nil, errors.New("bam: truncated aux array header")
 				}
+				// 'A' has a width but is not an array element type.
 				width := jumps[aux[i+3]]
-				if width < 1 {
+				if width < 1 || aux[i+3] == 'A' {
 					return nil, fmt.Errorf("bam: invalid aux array subtype: %q", aux[i+3])
 				}
 				length := binary.LittleEndian.Uint32(aux[i+4 : i+8])
